@@ -1,8 +1,8 @@
 package main
 
 import (
-	"os"
 	"fmt"
+	"os"
 	"sort"
 
 	"golang.org/x/tools/go/ssa"
